@@ -29,6 +29,14 @@ TARGETS = {
     # single-TU rapidcheck engines
     "s_rc": dict(cxx="clang++", std="c++17", flags=SAN, srcs=[dict(src="printing/s_main.cpp")], libs="-lrapidcheck"),
     "s_rc_gcc": dict(cxx="g++", std="c++17", flags=SAN, srcs=[dict(src="printing/s_main.cpp")], libs="-lrapidcheck"),
+    "m_rc": dict(cxx="clang++", std="c++17", flags=SAN, srcs=[dict(src="matchers/m_main.cpp")], libs="-lrapidcheck"),
+    "m_rc_gcc": dict(cxx="g++", std="c++17", flags=SAN, srcs=[dict(src="matchers/m_main.cpp")], libs="-lrapidcheck"),
+    "r_rc": dict(cxx="clang++", std="c++17", flags=SAN, srcs=[dict(src="ranges/r_main.cpp")], libs="-lrapidcheck"),
+    "r_rc_gcc": dict(cxx="g++", std="c++17", flags=SAN, srcs=[dict(src="ranges/r_main.cpp")], libs="-lrapidcheck"),
+    "c8_rc": dict(cxx="clang++", std="c++17", flags=SAN, srcs=[dict(src="clauses/c8_main.cpp")], libs="-lrapidcheck"),
+    "c8_rc_gcc": dict(cxx="g++", std="c++17", flags=SAN, srcs=[dict(src="clauses/c8_main.cpp")], libs="-lrapidcheck"),
+    "q_rc": dict(cxx="clang++", std="c++20", flags=SAN, srcs=[dict(src="coro/q_main.cpp")], libs="-lrapidcheck"),
+    "q_rc_gcc": dict(cxx="g++", std="c++20", flags=SAN, srcs=[dict(src="coro/q_main.cpp")], libs="-lrapidcheck"),
     # engine T (threads): same source, ThreadSanitizer build (mode A) and ASan build (modes B, E)
     "t_tsan": dict(cxx="clang++", std="c++17", flags="-fsanitize=thread", srcs=[dict(src="threads/t_main.cpp")], libs="-lrapidcheck"),
     "t_tsan_gcc": dict(cxx="g++", std="c++17", flags="-fsanitize=thread", srcs=[dict(src="threads/t_main.cpp")], libs="-lrapidcheck"),
